@@ -50,6 +50,11 @@ def typing_obligations(run, prop, rule, repo, sc, scen, mods=None):
             if semantic:
                 run.oblige(rule, (where, cons, 'reshape'), False)
                 run.add(Finding(prop, rule, where, cons, f'reshape does not respect the tensor structure ({scen}): {e["detail"]}', f, ln, {'scenario': scen}))
+        elif k == 'abs-discard':
+            if any(l.resolve().kind in ('R', 'M') for g in e['array'].legs for l in g):
+                where, cons, f, ln = ev_where(repo, e, mods)
+                run.oblige(rule, (where, cons, 'discard'), False)
+                run.add(Finding(prop, rule, where, cons, f'part of a tensor-train core is discarded by a test that ignores the scale of the data ({scen}): {e["detail"]}', f, ln, {'scenario': scen}))
         elif k == 'index-drop':
             legs = [l.resolve() for l in e['legs']]
             bad = [l for l in legs if l.kind == 'M' or (l.kind == 'R' and l.key[0] != 'B')]
@@ -81,6 +86,20 @@ def invariant_obligation(run, prop, rule, repo, sc, obj, entry_qual, scen, what=
         fn = repo.fn(entry_qual)
         run.add(Finding(prop, rule, fn.where, f'class invariant of the {what}', f'{scen}: ' + '; '.join(probs[:3]), fn.file, fn.node.lineno, {'scenario': scen}))
     return not probs
+
+
+def lost_update_obligations(run, prop, rule, repo, sc, scen, mods=None):
+    """buffered in-place updates through index arrays whose index tuples may repeat (a[I, J] += w): contributions to a repeated position are lost, so the result is
+    not the sum of the contributions"""
+    n = 0
+    for e in sc.events('lost-update'):
+        if not in_modules(e, mods):
+            continue
+        where, cons, f, ln = ev_where(repo, e, mods)
+        run.oblige(rule, (where, cons, 'lost-update'), False)
+        run.add(Finding(prop, rule, where, cons, f'{scen}: {e["detail"]}', f, ln, {'scenario': scen}))
+        n += 1
+    return n
 
 
 def core_sources(sc, obj):
